@@ -509,6 +509,57 @@ def differential(tr, seed):
     return None
 
 
+def titan_param_paths(rep, rnd):
+    """C04 "the chain is consulted with ... the request URL": Titan request lines whose path contains `;` (legal inside a
+    path segment, and where the parameters start).  Wherever an implementation cuts the line, the URL shown to the chain and
+    the path the upload handler acts on must denote the same resource - otherwise the chain admits one target and the
+    handler writes another."""
+    import asyncio
+    from urllib.parse import unquote, urlsplit
+    from nauyaca.protocol.response import GeminiResponse
+    from nauyaca.server.protocol import GeminiServerProtocol
+    from vf.transports import FakeTransport
+    from vf.vloop import VLoop
+    lines = ["titan://h.ex/pub;/../private/f.gmi;size=3;mime=text/plain", "titan://h.ex/a;b/c;size=3", "titan://h.ex/x;y;size=3;mime=text/plain",
+             "titan://h.ex/dir;v=1/file.gmi;size=3", "titan://h.ex/pub;size=3/../private/f.gmi;size=3", "titan://h.ex/pub/f.gmi;size=3;mime=text/plain",
+             "titan://h.ex/p%3Bq/f.gmi;size=3", "titan://h.ex/;size=3", "titan://h.ex/a/;/b;size=3;token=t"]
+    n = 0
+    for line in lines:
+        loop = VLoop()
+        asyncio.set_event_loop(loop)
+        try:
+            seen = []
+            uploads = []
+
+            class Rec:
+                async def process_request(self, url, ip, fp=None):
+                    seen.append(url)
+                    return True, None
+
+            class Up:
+                async def handle_upload(self, req):
+                    uploads.append(req)
+                    return GeminiResponse(status=20, meta="text/gemini", body="stored\n")
+            from nauyaca.server.middleware import MiddlewareChain
+            proto = GeminiServerProtocol(lambda r: GeminiResponse(status=51, meta="no"), MiddlewareChain([Rec()]), Up())
+            tr = FakeTransport(loop, proto, peername=("192.0.2.7", 40000), auto_lost=True)
+            loop.call(proto.connection_made, tr)
+            loop.call(tr.feed, line.encode() + b"\r\nabc")
+            loop.run_idle()
+            n += 1
+            for req in uploads:
+                shown = [unquote(urlsplit(u).path) for u in seen]
+                acted = unquote(req.path)
+                if not seen or any(p_ != acted for p_ in shown):
+                    rep.violation({"formula": "ConsultedWithRealIdentity", "titan_params": True},
+                                  "ConsultedWithRealIdentity falsified: request line %r: the chain was consulted with %s, the upload handler acts on path %r" % (
+                                      line, seen, req.path), None)
+        finally:
+            asyncio.set_event_loop(None)
+            loop.close()
+    rep.add("titan_lines_with_semicolons", n)
+
+
 def binding_selftest(rep, rnd):
     """Demonstrate that the trace spec constrains: corrupt one logged field / drop one event of accepted
     traces and require rejection."""
@@ -581,6 +632,8 @@ def main(pid, rep=None, finish=True):
             suspects.append(("replay", m, {"cfg": m["cfg"], "steps": steps}))
         for t in rejected:
             suspects.append(("trace", t, {"cfg": t["cfg"], "steps": t["steps"]}))
+        if pid == "C04":
+            titan_param_paths(rep, rnd)
         mt = micro_runs(rep, 4000 if thorough else 800, rnd, rep.seed)
         rep.add("loop_iteration_grain_runs", len(mt))
         rep.add("traces_validated_against_impl", len(mt))
